@@ -154,7 +154,7 @@ def audit(prop_modules):
     rc, out, dt = sh(["lake", "env", "lean", apath], cwd=LEAN, timeout=1800)
     cur = None
     text = out.replace("\n  ", " ")
-    for m in re.finditer(r"'([^']+)' (does not depend on any axioms|depends on axioms: \[([^\]]*)\])", text):
+    for m in re.finditer(r"'(\S+)' (does not depend on any axioms|depends on axioms: \[([^\]]*)\])", text):
         axs = [a.strip() for a in (m.group(3) or "").split(",") if a.strip()]
         res["theorems"][m.group(1)] = axs
     for n in names:
